@@ -84,6 +84,21 @@ class BuildError(Exception):
     pass
 
 
+def _install(rc, tmp, out):
+    """always rebuilt from the current tree; installed by an atomic rename so that a concurrently
+    running check that shares the binary (another tier, another seed) never sees it missing; a
+    failed build removes the stale binary instead"""
+    try:
+        if rc == 0:
+            os.replace(tmp, out)
+        else:
+            for f in (tmp, out):
+                if os.path.exists(f):
+                    os.remove(f)
+    except OSError:
+        pass
+
+
 def go_build(name, race=False):
     """build /verif/harness/cmd/<name> against /repo's working tree; returns the binary path"""
     os.makedirs(BIN, exist_ok=True)
@@ -97,8 +112,7 @@ def go_build(name, race=False):
                 open(dst, "wb").write(src)
         except OSError:
             pass
-        if os.path.exists(out):
-            os.remove(out)
+        tmp = "%s.tmp%d" % (out, os.getpid())
         cmd = ["go", "build", "-tags", "verif"]
         if REPO != "/repo":
             # scratch worktree of /repo (used when testing seeded changes): alternate go.mod
@@ -112,8 +126,9 @@ def go_build(name, race=False):
         if race:
             cmd.append("-race")
             env["CGO_ENABLED"] = "1"
-        cmd += ["-o", out, "./cmd/" + name]
+        cmd += ["-o", tmp, "./cmd/" + name]
         rc, so, se = run(cmd, cwd=HARNESS, env=env, timeout=900)
+        _install(rc, tmp, out)
     if rc != 0:
         raise BuildError("go build of harness %s failed:\n%s%s" % (name, so, se))
     return out
@@ -124,15 +139,15 @@ def go_build_repo(cmdname, race=False):
     os.makedirs(BIN, exist_ok=True)
     out = os.path.join(BIN, cmdname + ("-race" if race else ""))
     with Lock("go"):
-        if os.path.exists(out):
-            os.remove(out)
+        tmp = "%s.tmp%d" % (out, os.getpid())
         cmd = ["go", "build", "-tags", "verif"]
         env = goenv()
         if race:
             cmd.append("-race")
             env["CGO_ENABLED"] = "1"
-        cmd += ["-o", out, "./cmd/" + cmdname]
+        cmd += ["-o", tmp, "./cmd/" + cmdname]
         rc, so, se = run(cmd, cwd=REPO, env=env, timeout=900)
+        _install(rc, tmp, out)
     if rc != 0:
         raise BuildError("go build of cmd/%s failed:\n%s%s" % (cmdname, so, se))
     return out
